@@ -97,7 +97,10 @@ Sync(c, s) ==
        THEN Fail(s, "control", "environment differs at " \o n.k)
   ELSE IF Len(m.env) > Len(Cfg.temps) THEN [s EXCEPT !.status = "capacity"]
   ELSE IF HwAgrees(c, s) # "" THEN Fail(s, "hw", HwAgrees(c, s) \o " (marker " \o ToString(s.marks + 1) \o ", at " \o n.k \o ")")
-  ELSE LET hv == HeapView(s.heap, s.regs[Cfg.heap.r], s.regs[Cfg.free.r], Roots(s), s.hi)
+  ELSE LET hv0 == HeapView(s.heap, s.regs[Cfg.heap.r], s.regs[Cfg.free.r], Roots(s), s.hi)
+           \* C10 runs (Cfg.skip_counts) do not stop at an inexact reference count - that is C09's verdict - so that the
+           \* consequences for the footprint (a block that is lost, a frontier that keeps moving) are still observed
+           hv == IF Cfg.skip_counts /\ hv0.why = "reference count is not exact" THEN [hv0 EXCEPT !.why = ""] ELSE hv0
            peak == IF hv.reach > s.peak THEN hv.reach ELSE s.peak
        IN
        IF \E p \in DOMAIN Roots(s) : IsJunk(Roots(s)[p]) THEN
@@ -106,9 +109,10 @@ Sync(c, s) ==
        ELSE IF hv.why # "" THEN Fail(s, IF hv.leak THEN "leak" ELSE "heap", hv.why \o " (at " \o n.k \o ")")
        ELSE IF hv.F > peak + FootprintK THEN Fail(s, "footprint", "allocation frontier exceeds peak reachable blocks + K (at " \o n.k \o ")")
        \* C10, first sentence: "fresh memory only when both free lists are empty".  No statement both takes fresh memory and
-       \* releases blocks, and once the frontier moves both lists stay empty for the rest of the statement (apart from the one
-       \* block the allocator keeps ready), so: if the frontier moved since the previous marker, at most one block is on the lists.
-       ELSE IF s.marks > 0 /\ hv.F > s.F /\ hv.nlinear + hv.ndeferred > 1 THEN
+       \* releases blocks, so a block that was on a free list at the previous marker and is still on one now was available all
+       \* the time; if the frontier moved nevertheless, fresh memory was taken although a free list was not empty.  One such
+       \* block is tolerated (an allocator may keep one block ready), and nothing is assumed about how many blocks one bump adds.
+       ELSE IF s.marks > 0 /\ hv.F > s.F /\ Cardinality(s.freeSet \cap (hv.linearSet \cup hv.deferredSet)) > 1 THEN
             Fail(s, "footprint", "fresh memory was taken from the unused part of the heap although a free list was not empty (before " \o n.k \o ")")
        ELSE LET bad == {p \in 1..Len(m.env) : Shallow(c, s, p)[1] # ""}
                 badU == {p \in bad : Shallow(c, s, p)[1] = "undef"}
@@ -120,7 +124,7 @@ Sync(c, s) ==
                             w[2] \o (IF s.aftercall THEN " right after a call of the print runtime" ELSE "") \o " (at " \o n.k \o ")")
                ELSE LET tab2 == Learn(s)
                         m2 == AStep(QQ(c), m, TRUE)
-                        s2 == [s EXCEPT !.m = m2, !.tab = tab2, !.peak = peak, !.F = hv.F, !.aftercall = FALSE,
+                        s2 == [s EXCEPT !.m = m2, !.tab = tab2, !.peak = peak, !.F = hv.F, !.aftercall = FALSE, !.freeSet = hv.linearSet \cup hv.deferredSet,
                                         !.fin = [hp |-> s.regs[Cfg.heap.r].b, fp |-> s.regs[Cfg.free.r].b, nlin |-> hv.nlinear,
                                                  ndef |-> hv.ndeferred, reach |-> hv.reach, F |-> hv.F],
                                         !.cov = [maxenv |-> IF Len(m.env) > s.cov.maxenv THEN Len(m.env) ELSE s.cov.maxenv,
@@ -133,7 +137,7 @@ Sync(c, s) ==
 
 PInit(c) ==
   [IsaInit(PP(c), Cases[c].args, Cfg.nblocks) EXCEPT !.strict = Cfg.strict_encode]
-    @@ [c |-> c, m |-> AInit(QQ(c), Cases[c].args), marks |-> 0, tab |-> <<>>, peak |-> 0, F |-> 0, aftercall |-> FALSE, fin |-> [hp |-> 0, fp |-> 0, nlin |-> 0, ndef |-> 0, reach |-> 0, F |-> 0],
+    @@ [c |-> c, m |-> AInit(QQ(c), Cases[c].args), marks |-> 0, tab |-> <<>>, peak |-> 0, F |-> 0, aftercall |-> FALSE, freeSet |-> {}, fin |-> [hp |-> 0, fp |-> 0, nlin |-> 0, ndef |-> 0, reach |-> 0, F |-> 0],
         cov |-> [maxenv |-> 0, maxdef |-> 0, maxlin |-> 0, maxshared |-> 0]]
 
 PStep(s) ==
